@@ -1263,9 +1263,10 @@ def truncate_array(a, index):
     a._sync_arrayinfo()
     if not isinstance(index, int):
         raise TypeError(f"'index' should be an int (is {type(index)})")
-    with a._open_array() as (mmap, _):
-        newlen = len(mmap[:index])
-    del mmap # need this for Windows
+    # length that a[:index] would have; not taken from the memory map, which
+    # may be held open by a context that was entered before the array was
+    # changed through another Array object
+    newlen = len(range(len(a))[:index])
     lenincrease = newlen - len(a)
     if 0 <= newlen < len(a):
         i = newlen * product(a.shape[1:]) * a.dtype.itemsize
